@@ -142,7 +142,6 @@ pub struct PresolveView {
     pub keep: Vec<bool>,
     pub mfull: usize,
     pub mreduced: usize,
-    pub infbound: f64,
 }
 
 pub fn presolve_view(data: &crate::solver::DefaultProblemData<f64>) -> Option<PresolveView> {
@@ -154,7 +153,6 @@ pub fn presolve_view(data: &crate::solver::DefaultProblemData<f64>) -> Option<Pr
             .unwrap_or_else(|| vec![true; p.mfull]),
         mfull: p.mfull,
         mreduced: p.mreduced,
-        infbound: p.infbound,
     })
 }
 
